@@ -52,6 +52,7 @@ type Unit struct {
 	entryHeld    map[string]bool
 	iterLists    []string
 	condAxioms   []condAxiom
+	lastRawArgs  []Value
 }
 
 // condAxiom is a quantified definitional axiom that is only added to obligations in which the symbol is applied to a bound variable.
